@@ -37,10 +37,15 @@ def _finite_spec(rng):
         n = rng.randint(1, 3)
         hps = []
         for i in range(n):
-            kind = rng.choice(["cat_str", "cat_bool", "ord_int", "ord_float", "small_int"])
+            kind = rng.choice(["cat_str", "cat_bool", "ord_int", "ord_float", "small_int", "small_int", "small_int_log"])
             if kind == "small_int":
                 lo = rng.choice([-2, 0, 1, 5])
                 hps.append({"name": f"h{i}", "kind": "int", "lo": lo, "hi": lo + rng.randint(1, 5), "log": False})
+            elif kind == "small_int_log":
+                # a small integer range with a log-uniform prior (the surrogate sees log(k); the
+                # round trip of every integer of the range must be the integer itself)
+                lo = rng.choice([1, 1, 2, 8])
+                hps.append({"name": f"h{i}", "kind": "int", "lo": lo, "hi": lo + rng.choice([3, 7, 15, 23, 40, 56]), "log": True})
             else:
                 hps.append(ac.gen_hp(rng, f"h{i}", [kind]))
         spec = {"hps": hps, "conds": [], "forbs": []}
@@ -57,6 +62,38 @@ def _universe(spec, names):
         h = by[n]
         axes.append(list(h["choices"]) if h["kind"] in ("cat", "ord", "const") else list(range(h["lo"], h["hi"] + 1)))
     return [list(p) for p in itertools.product(*axes)]
+
+
+def _initial_points(rng, spec, k):
+    """`k` distinct members of the space, as the dicts a user passes to `CBO(initial_points=...)`
+    (e.g. the documented `[problem.default_configuration]`)"""
+    names = [h["name"] for h in spec["hps"]]
+    if ac.space_size(spec) is not None:
+        univ = _universe(spec, names)
+        pts = rng.sample(univ, min(k, max(1, len(univ) - 1)))
+    else:
+        pts, seen = [], set()
+        for _ in range(20 * k):
+            x = []
+            for h in spec["hps"]:
+                if h["kind"] == "float":
+                    lo, hi = float(h["lo"]), float(h["hi"])
+                    x.append(rng.choice([lo, hi, (lo + hi) / 2, lo + (hi - lo) * rng.random()]))
+                elif h["kind"] == "int":
+                    x.append(rng.randint(h["lo"], h["hi"]))
+                else:
+                    x.append(rng.choice(h["choices"]))
+            if _key(x) not in seen:
+                seen.add(_key(x))
+                pts.append(x)
+            if len(pts) == k:
+                break
+    return [dict(zip(names, x)) for x in pts]
+
+
+def _foreign_results(rng, spec, k):
+    """`k` results about members of the space that the search did not ask for"""
+    return [[p, rng.choice([round(rng.uniform(-3, 3), 3), float(rng.randint(-2, 5))])] for p in _initial_points(rng, spec, k)]
 
 
 def gen_cells(ck):
@@ -77,7 +114,7 @@ def gen_cells(ck):
                         break
                     spec, size = _finite_spec(rng)
         else:
-            spec = ac.gen_spec(rng, n_hps=rng.randint(1, 3), kinds=["float", "float_log", "int", "cat_str", "ord_float"])
+            spec = ac.gen_spec(rng, n_hps=rng.randint(1, 3), kinds=["float", "float_log", "int", "int_log", "cat_str", "ord_float"])
             if ac.space_size(spec) is not None:
                 spec["hps"].append(ac.gen_hp(rng, f"h{len(spec['hps'])}", ["float"]))
             size = None
@@ -102,6 +139,64 @@ def gen_cells(ck):
         if rng.random() < 0.5:
             for st in script:
                 st["tell"] = [True]  # results of a batch all come back before the next ask
+        if rng.random() < 0.2:
+            # results of configurations evaluated elsewhere are told too (Search._search tells the
+            # `other_results` of a shared storage; a warm start through tell)
+            for st in script[: rng.randint(1, 3)]:
+                st["foreign"] = _foreign_results(rng, spec, rng.randint(1, 4))
+        if not spec["conds"] and not spec["forbs"] and rng.random() < 0.25:
+            # initial points given by the user: handed out first, the random ones complete the
+            # initial phase (fewer, as many or more points than n_initial_points)
+            cell["initial_points"] = _initial_points(rng, spec, rng.randint(1, 4))
+        cells.append((cell, spec, script, "asktell"))
+    # initial points given by the user (the documented way to start from known configurations,
+    # e.g. the default one) on finite spaces, handed out one by one or in batches, alone or
+    # together with random points; then enough model-based rounds to propose the whole space:
+    # what was handed out in the initial phase must not come back
+    for k in range(ck.pick(30, 200)):
+        spec, size = _finite_spec(rng)
+        surrogate = rng.choice(["ET", "RF", "ET", "GP", "DUMMY"])
+        batch = rng.choice([1, 2, 2, 3, 4, 4, 6])
+        n_given = rng.randint(1, min(5, size - 1))
+        n_rounds = min(-(-(size + 2) // batch), 14 if surrogate != "GP" else 7)
+        cell = {"search": "CBO", "seed": rng.randint(0, 10**6), "surrogate": surrogate,
+                "strategy": C08_STRATEGIES[k % len(C08_STRATEGIES)],
+                "acq": rng.choice(["UCB", "EI"]), "design": "random",
+                "n_initial": max(1, n_given + rng.choice([-1, 0, 0, 1, 2])),
+                "n_points": max(64, 8 * size), "filter_failures": rng.choice(["min", "mean", "ignore"]),
+                "acq_optimizer_freq": rng.choice([1, 10]),
+                "initial_points": _initial_points(rng, spec, n_given)}
+        script = ac.gen_script(rng, max(n_rounds, 3), 8, fail_p=rng.choice([0.0, 0.0, 0.15]),
+                               batches=[batch] if rng.random() < 0.75 else [rng.randint(1, 6) for _ in range(n_rounds)])
+        for st in script:
+            st["tell"] = [True]
+        cells.append((cell, spec, script, "asktell"))
+    # a search that is told more than it asked: results evaluated elsewhere arrive with the first
+    # tells (enough of them to end the random phase), then free workers are filled one ask at a
+    # time — several asks in a row before the next tell
+    for k in range(ck.pick(16, 100)):
+        finite = rng.random() < 0.6
+        if finite:
+            spec, size = _finite_spec(rng)
+        else:
+            spec, size = ac.gen_spec(rng, n_hps=rng.randint(1, 3), kinds=["float", "int", "cat_str", "float_log"]), None
+            if ac.space_size(spec) is not None:
+                spec["hps"].append(ac.gen_hp(rng, f"h{len(spec['hps'])}", ["float"]))
+        surrogate = rng.choice(["ET", "RF", "ET", "GP"])
+        n_initial = rng.randint(1, 3)
+        cell = {"search": "CBO", "seed": rng.randint(0, 10**6), "surrogate": surrogate,
+                "strategy": C08_STRATEGIES[k % len(C08_STRATEGIES)], "acq": rng.choice(["UCB", "EI"]),
+                "design": "random", "n_initial": n_initial,
+                "n_points": max(64, 8 * size) if size else 32, "filter_failures": rng.choice(["min", "mean", "ignore"]),
+                "acq_optimizer_freq": rng.choice([1, 10])}
+        n_rounds = rng.randint(5, 8) if surrogate != "GP" else rng.randint(4, 6)
+        script = ac.gen_script(rng, n_rounds, 3, fail_p=0.0, batches=[rng.choice([1, 1, 2, 3])], again_p=0.6)
+        for st in script:
+            st["tell"] = [True]
+        script[0].pop("no_tell", None)
+        script[0]["foreign"] = _foreign_results(rng, spec, n_initial + rng.randint(2, 6))
+        if rng.random() < 0.5 and len(script) > 2:
+            script[2]["foreign"] = _foreign_results(rng, spec, rng.randint(1, 4))
         cells.append((cell, spec, script, "asktell"))
     # whole batches of failures told back (policies min / mean: the failures ARE passed to the
     # optimizer), then an ask of the same size — what Search.search does with a fixed number of
@@ -196,32 +291,58 @@ def _shrink_job(args):
     common.use_repo_sources()
     pred = _same_failure(key)
     cell, spec, script = dict(c["cell"]), json.loads(json.dumps(c["spec"])), json.loads(json.dumps(c["script"]))
-    budget = [10]
+    budget = [26]
 
-    def ok(ce, sp, sc):
-        if budget[0] <= 0:
-            return False
-        budget[0] -= 1
-        return pred(ce, sp, sc)
+    def ok(ce, sp, sc, seeds=1):
+        """does the same failure show with this variant?  A variant changes what the random
+        generator is asked for, so a few seeds are tried before an option is declared necessary"""
+        for d in range(seeds):
+            if budget[0] <= 0:
+                return None
+            budget[0] -= 1
+            ce2 = dict(ce, seed=ce["seed"] + d)
+            if pred(ce2, sp, sc):
+                return ce2
+        return None
 
+    # the rounds after the failing one play no part (the session is deterministic given its seed)
+    r_fail = c.get("detail", {}).get("round")
+    if isinstance(r_fail, int) and r_fail + 1 < len(script) and ok(cell, spec, script[: r_fail + 1]):
+        script = script[: r_fail + 1]
     for opt in ("filter_failures", "surrogate", "strategy"):
         if cell.get(opt) != BASE[opt]:
-            c2 = dict(cell)
-            c2[opt] = BASE[opt]
-            if ok(c2, spec, script):
+            c2 = ok(dict(cell, **{opt: BASE[opt]}), spec, script, seeds=3)
+            if c2:
                 cell = c2
     # no failures told
     sc2 = json.loads(json.dumps(script))
     for st in sc2:
         st["objs"] = [o if not isinstance(o, str) else 1.0 for o in st["objs"]]
-    if sc2 != script and ok(cell, spec, sc2):
-        script = sc2
+    if sc2 != script:
+        c2 = ok(cell, spec, sc2, seeds=3)
+        if c2:
+            cell, script = c2, sc2
     # every ask followed by a tell
     sc3 = json.loads(json.dumps(script))
     for st in sc3:
         st.pop("no_tell", None)
-    if sc3 != script and ok(cell, spec, sc3):
-        script = sc3
+    if sc3 != script:
+        c2 = ok(cell, spec, sc3, seeds=3)
+        if c2:
+            cell, script = c2, sc3
+    # nothing told but what was asked
+    sc4 = json.loads(json.dumps(script))
+    for st in sc4:
+        st.pop("foreign", None)
+    if sc4 != script:
+        c2 = ok(cell, spec, sc4, seeds=3)
+        if c2:
+            cell, script = c2, sc4
+    # no initial points given by the user
+    if cell.get("initial_points"):
+        c2 = ok({k: v for k, v in cell.items() if k != "initial_points"}, spec, script, seeds=3)
+        if c2:
+            cell = c2
     return _req(cell, script), {"cell": cell, "spec": spec, "script": script}
 
 
@@ -231,6 +352,10 @@ def _req(cell, script):
         req["failures-told"] = True
     if any(st.get("no_tell") for st in script):
         req["ask-again-before-tell"] = True
+    if cell.get("initial_points"):
+        req["initial-points"] = True
+    if any(st.get("foreign") for st in script):
+        req["results-of-others-told"] = True
     return req
 
 
@@ -240,11 +365,16 @@ def _sat(case, req):
 
 
 def _req_tags(req):
-    tags = [f"{k}={v}" for k, v in req.items() if k not in ("failures-told", "ask-again-before-tell")]
+    tags = [f"{k}={v}" for k, v in req.items()
+            if k not in ("failures-told", "ask-again-before-tell", "initial-points", "results-of-others-told")]
     if req.get("failures-told"):
         tags.append("failures-told")
     if req.get("ask-again-before-tell"):
         tags.append("ask-again-before-tell")
+    if req.get("initial-points"):
+        tags.append("initial-points")
+    if req.get("results-of-others-told"):
+        tags.append("results-of-others-told")
     return ",".join(tags) if tags else "baseline"
 
 
@@ -268,7 +398,9 @@ def run(ck):
     ck.rule = ("generated CBO sessions: finite spaces (products of categorical / ordinal / small integer ranges, 4..64 "
                "configurations, candidate draws 8x the space) and continuous spaces x surrogate {ET,RF,GP,DUMMY} x strategy "
                "{cl_min,cl_mean,cl_max,qUCB,qUCBd} x batch 1..8 (fixed or varying) x seeds x told objectives incl. failures x "
-               "filter_failures {min,mean,ignore}; enough rounds to propose the whole finite space and a few more.  "
+               "filter_failures {min,mean,ignore}, optionally initial points given by the user (handed out one by one or "
+               "in batches, fewer / as many / more than n_initial_points); enough rounds to propose the whole finite "
+               "space and a few more.  "
                "non-trivial = session with at least 2 proposals after the random phase")
     ck.assumptions = [
         "round trip contract (FitRT): transform -> clip -> inverse_transform -> deactivate of a sampled candidate is the candidate itself (exact for categorical/ordinal/integer dimensions; C09's subject; re-checked here on every session: the proposal must be one of the filtered candidates)",
@@ -315,14 +447,27 @@ def run(ck):
             # simply ends early
             ck.count(f"session-ended-by:{rec['error']['type']}@{rec['error']['site']}")
         rep = reps.get(i)
+        fails, covered = _failures_of(cell, spec, rec, rep)
         fitted_props = 0
         if rep is not None:
             for p in rep["paths"]:
                 ck.count("path:" + p)
             fitted_props = sum(1 for p in rep["paths"] if p in ("single-next", "qLCB", "constant-liar"))
-            ck.count("session:" + ("replayed" if rep["mismatch"] is None else "MISMATCH"))
-            if rep["mismatch"] is not None:
+            if rep["mismatch"] is not None and (rep["replayed"] in {d.get("round") for _, _, d in fails}
+                                                or ac.repeats_initial_point(rep["replayed"], reqs[idx.index(i)])):
+                # the model describes code on which the property holds: at the very ask where
+                # the implementation repeats a configuration (reported below as a violation
+                # with its replay) it necessarily departs from the model; the same for a batch
+                # that repeats one of its own initial points on an exhausted space (the
+                # mechanism of the recorded finding 8e where it breaks nothing)
+                ck.count("session:departs-from-model-at-a-violation")
+            elif rep["mismatch"] is not None:
+                ck.count("session:MISMATCH")
                 ck.mismatch(case, {"model_vs_impl": rep["mismatch"], "rounds_replayed": rep["replayed"]})
+            else:
+                ck.count("session:replayed")
+            if rep["mismatch"] is not None:
+                pass
             elif size is not None:
                 ck.count("finite:" + ("draws-cover-space" if rep["covers"] else "draws-do-not-cover"))
                 if rep["covers"] and not rep["firstN_distinct"]:
@@ -330,12 +475,16 @@ def run(ck):
         ck.case(case, nontrivial=nprops >= 2 and fitted_props >= 1)
         if size is not None:
             ck.count(f"space-size:{'4-8' if size <= 8 else '9-24' if size <= 24 else '25-64'}")
-        fails, covered = _failures_of(cell, spec, rec, rep)
+        if cell.get("initial_points"):
+            ck.count("initial-points:" + ("batches" if any(st["n"] > 1 for st in script[:2]) else "single"))
         if size is not None and nprops >= size:
             ck.count("finite:whole-space-proposed")
         for clause, site, detail in fails:
             prov.setdefault(f"{clause}|{site}", []).append({"detail": detail, "cell": cell, "spec": spec, "script": script})
     ck.count("corpus_cases", n_corpus)
+    for v in prov.values():
+        # the cheapest sessions are shrunk first (they explain the others)
+        v.sort(key=lambda c: (c["cell"]["surrogate"] in ("GP", "RF"), len(c["script"]) * max(st["n"] for st in c["script"])))
     what = ("{site} proposed a configuration it had already proposed although unproposed configurations were "
             "still offered by its candidate sampling ({clause})")
     for key, req, shrunk, explained in ac.fingerprint_groups(prov, _shrink_job, sat=_sat, fallback=lambda c: _req(c["cell"], c["script"])):
